@@ -1,26 +1,32 @@
-package codes
+package breaker
 
-// C01 — race shard: this unit is built with -race (see verif.json). Several
-// goroutines use one named breaker through every public entry point at the same
-// real time with codes.Acceptable as predicate; the race detector is the oracle
-// for unsynchronised access inside lib/breaker and lib/collection, the
-// functional checks are the ones that need no view of the window.
+// C01 — race shard: this unit (lib/breaker@race) is built with -race (see
+// verif.json). Several goroutines use one named breaker through every entry
+// point at the same real time; the race detector is the oracle for
+// unsynchronised access inside lib/breaker and lib/collection, plus the
+// functional checks that need no view of the window.
 
 import (
+	"errors"
 	"fmt"
 	"sync"
 	"sync/atomic"
 	"testing"
 
-	"github.com/gotid/god/lib/breaker"
 	"github.com/gotid/god/lib/logx"
-	gcodes "google.golang.org/grpc/codes"
-	"google.golang.org/grpc/status"
 	"pgregory.net/rapid"
 	"verif.local/kit"
 )
 
 func init() { logx.Disable() }
+
+var (
+	c01RaceBenign = errors.New("c01 race: benign error")
+	c01RaceFatal  = errors.New("c01 race: failure")
+)
+
+// c01RaceAcceptable is the caller's predicate: nil and the benign error are successes.
+func c01RaceAcceptable(err error) bool { return err == nil || err == c01RaceBenign }
 
 type c01RaceCase struct {
 	G      int  `json:"g"`
@@ -48,29 +54,29 @@ func TestVerif_C01_race(t *testing.T) {
 			go func() {
 				defer wg.Done()
 				for j := 0; j < c.K; j++ {
-					// benign: NotFound / nil only; otherwise every third call is Unavailable
+					// benign: benign error / nil only; otherwise every third call fails
 					var want error
 					switch {
 					case !c.Benign && j%3 == 2:
-						want = status.Error(gcodes.Unavailable, "c01")
+						want = c01RaceFatal
 					case j%2 == 1:
-						want = status.Error(gcodes.NotFound, "c01")
+						want = c01RaceBenign
 					}
 					ran := false
 					req := func() error { ran = true; return want }
 					var err error
 					switch (g + j) % 5 {
 					case 0:
-						err = breaker.DoWithAcceptable(name, req, Acceptable)
+						err = DoWithAcceptable(name, req, c01RaceAcceptable)
 					case 1:
-						err = breaker.Get(name).DoWithAcceptable(req, Acceptable)
+						err = Get(name).DoWithAcceptable(req, c01RaceAcceptable)
 					case 2:
-						err = breaker.DoWithFallbackAcceptable(name, req, func(e error) error { return e }, Acceptable)
+						err = DoWithFallbackAcceptable(name, req, func(e error) error { return e }, c01RaceAcceptable)
 					case 3:
-						p, e := breaker.Get(name).Allow()
+						p, e := Get(name).Allow()
 						if e == nil {
 							ran = true
-							if Acceptable(want) {
+							if c01RaceAcceptable(want) {
 								p.Accept()
 							} else {
 								p.Reject("c01")
@@ -81,11 +87,11 @@ func TestVerif_C01_race(t *testing.T) {
 						}
 					default:
 						want = nil
-						err = breaker.Do(name, req)
+						err = Do(name, req)
 					}
 					if !ran {
 						atomic.AddInt64(&rejected, 1)
-						if err != breaker.ErrServiceUnavailable {
+						if err != ErrServiceUnavailable {
 							atomic.AddInt64(&bad, 1)
 							firstBad.Store(fmt.Sprintf("rejected call returned %v", err))
 						}
@@ -105,7 +111,7 @@ func TestVerif_C01_race(t *testing.T) {
 			return v.Failf("%d inconsistent calls, e.g. %v", bad, firstBad.Load())
 		}
 		if c.Benign && rejected != 0 {
-			return v.Failf("%d calls rejected although only nil / NotFound outcomes were recorded", rejected)
+			return v.Failf("%d calls rejected although only nil / benign outcomes were recorded", rejected)
 		}
 		return v
 	})
